@@ -36,6 +36,7 @@ func c14Candidates(lvl int) []string {
 	)
 	m := gen.Magnitudes
 	g = gen.Alt(g, gen.Seq(gen.Lit("1.", "1.0_p", "1.0_rc", "1.0-r", "1.0_git", "1.0a_alpha"), m), gen.Seq(m, gen.Lit("", ".1", "a", "_p1")), gen.Seq(gen.Lit("1.0_p", "1.0_rc", "1.0-r"), gen.Alt(gen.LeadingZeros, gen.Lit("7", "8", "9", "10", "11"))))
+	g = gen.Alt(g, gen.SlotFamily("alpine"))
 	if lvl > 0 {
 		g = gen.Alt(g,
 			gen.Seq(gen.Lit("1.0", "1.1", "1", "1.0.0"), gen.Opt(gen.Lit("a", "z")), sfx, sfxS, gen.Opt(gen.Lit("-r1", "-r2"))),
